@@ -979,7 +979,7 @@ var {async_status_var} = {raw_name}({wasm_params});
             );
         }
 
-        if abi::guest_export_needs_post_return(self.resolve, func) {
+        if !async_ && abi::guest_export_needs_post_return(self.resolve, func) {
             let params = sig
                 .results
                 .iter()
